@@ -147,6 +147,9 @@ harnesses! {
     fn c07_t_comp_dna_l33 [35] { comp_inplace!(Dna, oracle::DNA, 0, 64, 33) }
     fn c07_q_comp_miupac_l13 [15] { comp_inplace!(masked::Iupac, oracle::MIUPAC, 2, 25, 13) }
 
+    fn c07_q_revcomp_dna_l1 [10] { revcomp_inplace!(Dna, oracle::DNA, 0, 64, 1) }
+    fn c07_q_revcomp_dna_l2 [10] { revcomp_inplace!(Dna, oracle::DNA, 0, 64, 2) }
+    fn c07_q_to_revcomp_dna_o31_n1 [10] { to_forms!(Dna, oracle::DNA, 0, 64, 31, 1, 2) }
     fn c07_q_revcomp_dna_l3 [10] { revcomp_inplace!(Dna, oracle::DNA, 0, 64, 3) }
     fn c07_t_revcomp_iupac_l3 [10] { revcomp_inplace!(Iupac, oracle::IUPAC, 1, 32, 3) }
     fn c07_t_revcomp_miupac_l3 [10] { revcomp_inplace!(masked::Iupac, oracle::MIUPAC, 2, 25, 3) }
